@@ -471,7 +471,7 @@ fn pool_cmd(args: &[String]) {
     let mut k = 0u64;
     let widths: Vec<u32> = if gen == "small" { vec![2, 3, 5] } else { (2..=16).collect() };
     for w in widths {
-        for cfg in ["user", "default", "batch", "async", "foreign", "defbatch", "batchfirst", "asyncforeign", "asyncdouble", "defforeign", "asyncdefforeign", "batch2", "batchdeep", "seqbatch", "afterpanic"] {
+        for cfg in ["user", "default", "batch", "async", "foreign", "defbatch", "batchfirst", "asyncforeign", "asyncdouble", "defforeign", "asyncdefforeign", "batch2", "batchdeep", "seqbatch", "afterpanic", "sendrunnow"] {
             // pool exactly as wide as the stage, and a larger one; the default pool has one thread per CPU
             let sizes: Vec<usize> = if cfg == "default" || cfg == "defforeign" || cfg == "asyncdefforeign" { if (w as usize) <= cpus { vec![cpus] } else { vec![] } } else if cfg == "defbatch" { if (w as usize) < cpus { vec![cpus] } else { vec![] } } else { vec![w as usize, 16.max(w as usize)] };
             for p in sizes {
